@@ -269,3 +269,23 @@ fn c05_overwritten_constants_are_not_slots() {
     }
     run_cases("c05_overwritten_constants", cases);
 }
+
+/// constants that only LOOK like the hashes the tool recognises (byte-swapped keccak256(n), keccak(n) ± k) used in a key with
+/// a non-constant part: the layout may name that constant, never the small slot number n it resembles
+#[test]
+fn c05_constants_resembling_recognised_hashes_name_no_small_slot() {
+    let mut cases = vec![];
+    for n in [0u64, 1, 5, 77] {
+        let h = keccak_of_slot(n);
+        let mut near: Vec<(String, U256)> = vec![(format!("byte-swapped keccak({n})"), U256::from_le_bytes(h.to_be_bytes())), (format!("keccak(keccak({n}))"), keccak(&h.to_be_bytes()))];
+        for k in [1u64, 7, 31, 40] { near.push((format!("keccak({n}) + {k} as a literal"), h.wrapping_add(U256::from(k)))); }
+        for (what, k) in near {
+            // sstore(K + calldataload(0), caller)   and   sload(K) dropped
+            let mut c = vec![0x33]; p32(&mut c, k); cdl(&mut c, 0); c.extend([0x01, 0x55, 0x00]);
+            cases.push(Case { ob: "slots.only_accessed_slots.resembles_a_recognised_hash", what: format!("sstore({what} + calldataload(0), caller)"), code: c, allowed: [k].into_iter().collect(), in_value: BTreeSet::new() });
+            let mut c = vec![]; p32(&mut c, k); c.extend([0x54, 0x50, 0x00]);
+            cases.push(Case { ob: "slots.only_accessed_slots.resembles_a_recognised_hash", what: format!("sload({what})"), code: c, allowed: [k].into_iter().collect(), in_value: BTreeSet::new() });
+        }
+    }
+    run_cases("c05_near_hashes", cases);
+}
